@@ -494,6 +494,10 @@ func (c *FnCtx) checkEnsures() {
 	if c.Spec == nil {
 		return
 	}
+	if c.Spec.Trusted {
+		c.note("TRUSTED contract: the ensures clauses of this function are assumed, not checked (listed in evidence)")
+		return
+	}
 	sort.SliceStable(c.retSt, func(i, j int) bool { return c.retSt[i].Block < c.retSt[j].Block })
 	for ri, r := range c.retSt {
 		names := c.resultNames(r.Vals)
